@@ -670,67 +670,127 @@ def types_of(sdict):
     return []
 
 
+def branches_of(schema):
+    """all sub-schemas sitting under anyOf / oneOf / allOf anywhere in the schema"""
+    out = []
+
+    def fn(n):
+        if isinstance(n, dict):
+            for k in ("anyOf", "oneOf", "allOf"):
+                if isinstance(n.get(k), list):
+                    out.extend(n[k])
+    G._walk(schema, fn)
+    return out
+
+
+def erase_side(schema, side):
+    keys = {"max": ("maxLength", "maxItems", "maxProperties", "maximum", "exclusiveMaximum"),
+            "min": ("minLength", "minItems", "minProperties", "minimum", "exclusiveMinimum")}[side]
+    return erase(schema, keys)
+
+
+def has_fractional_keyword(schema):
+    fr = False
+
+    def fn(n):
+        nonlocal fr
+        if isinstance(n, dict):
+            for k in ("minimum", "maximum", "exclusiveMinimum", "exclusiveMaximum", "multipleOf"):
+                v = n.get(k)
+                if isinstance(v, float) and v != int(v):
+                    fr = True
+    G._walk(schema, fn)
+    return fr
+
+
 def shape_of_violation(schema, o, rec):
-    """narrow 'failing shape' of a label violation produced by cover_schema_iter: the first root cause (R1..R14 in
-    findings/C03.json) whose test explains it, else an 'unexplained' tag carrying mode and description class"""
+    """narrow 'failing shape' of a label violation produced by cover_schema_iter: the first root cause (findings/C03.json)
+    whose *test* explains this very value, else an 'unexplained' tag carrying mode and description class.
+    Every test asks whether the generator was right locally and wrong only because of the named cause, so that a
+    regression inside an arm is not mistaken for a catalogued finding."""
     loc = o["loc"] or ""
     parts = [p for p in loc.split("/") if p]
     top = o["desc"].split(":")[0]
     inner = o["desc"].split(":")[-1]
     sdict = schema if isinstance(schema, dict) else {}
+    value = o["value"]
     if o["mode"] == "negative":
-        if any(p in COMBINATORS for p in parts):
-            return "negative-of-one-branch-accepted-by-schema"
-        if inner in ("greater-than-maximum", "smaller-than-minimum") and embedded_bool(o["value"]):
+        comb_at = next((i for i in range(len(parts) - 1, -1, -1) if parts[i] in COMBINATORS), None)   # innermost branch
+        if comb_at is not None:
+            # the branch the value was negated against must itself reject (the relevant part of) the value
+            branch = path_get(schema, "/" + "/".join(parts[: comb_at + 2] + ["x"]))
+            inner_value = value
+            for p in parts[:comb_at]:
+                if p == "properties":
+                    continue
+                if p == "items" and isinstance(inner_value, list) and inner_value:
+                    inner_value = inner_value[0]
+                elif isinstance(inner_value, dict) and p in inner_value:
+                    inner_value = inner_value[p]
+            if branch is not None and py_valid(branch, inner_value) is False:
+                return "negative-of-one-branch-accepted-by-schema"
+        if inner in ("greater-than-maximum", "smaller-than-minimum") and embedded_bool(value):
             return "draft4-boolean-exclusive-bound-emitted-as-value"
-        if inner == "unexpected-properties":
+        node = path_get(schema, loc)
+        if inner == "unexpected-properties" and isinstance(node, dict) and isinstance(node.get("additionalProperties"), dict):
             return "additionalProperties-schema-treated-as-false"
         path = unsound_oracle_call(rec, o)
         if path:
             return f"generate_from_schema:{path}-ignores-sibling-keywords"
-        if inner == "not-matching-format":
+        if inner == "not-matching-format" and isinstance(node, dict) and node.get("format") not in FORMAT_CHECKER.checkers:
             return "negative-format-not-checked"
-        node = path_get(schema, loc)
         kw = parts[-1] if parts else ""
         if isinstance(node, dict) and kw in FAMILY:
             ts = types_of(node)
             fam = FAMILY[kw]
             if ts and fam not in ts and not (fam == "number" and "integer" in ts):
                 return "negated-keyword-not-applicable-to-declared-type"
-        if contains_key(schema, COMBINATORS):
-            return "negative-accepted-through-combinator"
         return f"unexplained:negative:{inner}"
     # ---- positive value rejected by the schema
     if schema is False:
         return "false-schema-treated-as-accepting"
     if contains_key(schema, COMBINATORS):
-        return "positive-next-to-combinator-rejected"
+        # right for the combinator-free schema or for one branch, wrong for the whole
+        cands = [erase(schema, COMBINATORS)] + branches_of(schema)
+        if any(py_valid(c, value) is True for c in cands if isinstance(c, (dict, bool))):
+            return "positive-next-to-combinator-rejected"
     # an object whose member is rejected by that member's own schema: the cause sits one level down
     props = sdict.get("properties")
-    if isinstance(o["value"], dict) and isinstance(props, dict):
-        for name, v in o["value"].items():
+    if isinstance(value, dict) and isinstance(props, dict):
+        for name, v in value.items():
             if name in props and py_valid(props[name], v) is False:
                 sub_desc = o["desc"][len(f"object-valid:{name}:"):] if o["desc"].startswith(f"object-valid:{name}:") else "valid-object"
                 return shape_of_violation(props[name], {**o, "value": v, "desc": sub_desc}, rec)
-    if inner in ("enum-value", "const-value"):
+    if isinstance(value, list) and isinstance(sdict.get("items"), dict):
+        for v in value:
+            if py_valid(sdict["items"], v) is False:
+                return shape_of_violation(sdict["items"], {**o, "value": v, "desc": "valid-array"}, rec)
+    if inner in ("enum-value", "const-value") and (any(py_same(value, x) for x in sdict.get("enum", []) if isinstance(sdict.get("enum"), list))
+                                                   or ("const" in sdict and py_same(value, sdict["const"]))):
         return "enum-or-const-value-emitted-unchecked"
-    if bounds_unsatisfiable(schema):
+    if bounds_unsatisfiable(schema) and (py_valid(erase_side(schema, "max"), value) is True or py_valid(erase_side(schema, "min"), value) is True):
         return "positive-on-crossing-bounds"
     path = unsound_oracle_call(rec, o)
     if path:
         return f"generate_from_schema:{path}-ignores-sibling-keywords"
     if inner in NUMERIC_CLASSES:
-        if has_integer_type_with_fraction(schema, o["value"]):
+        if has_integer_type_with_fraction(schema, value) and "integer" in types_of(sdict) \
+                and py_valid({**sdict, "type": "number"}, value) is True:
             return "non-integer-boundary-for-integer-type"
-        if contains_key(schema, ("exclusiveMinimum", "exclusiveMaximum")):
-            return "number-exclusive-bound-misread"
+        if contains_key(schema, ("exclusiveMinimum", "exclusiveMaximum")) and has_fractional_keyword(schema):
+            return "number-exclusive-bound-misread"   # integer-valued keywords are attributed through the model instead
     if top.startswith("object") or top == "valid-object":
-        for kw in ("required", "minProperties", "maxProperties", "patternProperties", "additionalProperties"):
-            if kw in sdict and py_valid(erase_top(sdict, kw), o["value"]) is True:
-                return "object-template-overrides-required" if kw == "required" else "object-value-ignores-sibling-keyword"
+        req = sdict.get("required")
+        if isinstance(req, list) and isinstance(props, dict) or isinstance(req, list) and props is None:
+            undeclared = [n for n in req if n not in (props or {})]
+            if undeclared and py_valid({**sdict, "required": [n for n in req if n not in undeclared]}, value) is True:
+                return "object-template-overrides-required"
+        for kw in ("minProperties", "maxProperties", "patternProperties", "additionalProperties"):
+            if kw in sdict and py_valid(erase_top(sdict, kw), value) is True:
+                return "object-value-ignores-sibling-keyword"
     if top in ("valid-array", "near-boundary-items", "max-items-array"):
         for kw in ("uniqueItems", "minItems", "maxItems"):
-            if kw in sdict and py_valid(erase_top(sdict, kw), o["value"]) is True:
+            if kw in sdict and py_valid(erase_top(sdict, kw), value) is True:
                 return "array-value-ignores-sibling-keyword"
     return f"unexplained:positive:{top}"
 
